@@ -12,11 +12,11 @@ ConfigsThorough == {[to |-> t, ab |-> a, mode |-> m, ver |-> v] :
                    v \in {<<1, 1, 1>>, <<0, 1, 1>>, <<1, 0, 1>>, <<1, 1, 0>>}}
 \* witnesses: timeOut shorter than abortTimeout, answers at once
 ConfigsReach == {[to |-> 1, ab |-> 3, mode |-> <<0, 0>>, ver |-> <<1, 1>>]}
-MaxNowQuick == 40
-MaxNowThorough == 60
-DepthQuick == 11
-DepthThorough == 14
-DepthReach == 20
+MaxNowQuick == 200
+MaxNowThorough == 200
+DepthQuick == 40
+DepthThorough == 60
+DepthReach == 30
 
 Init == \E c \in Configs : InitWith(c)
 Spec == Init /\ [][Next]_vars
